@@ -26,7 +26,7 @@ type DdnParams struct {
 	N4Addr   string `json:"n4"`
 	Seed     int64  `json:"seed"`
 	Reports  int    `json:"reports"`
-	DdnMs    int    `json:"ddnMs"` // 0 = the real 20 s
+	DdnMs    int    `json:"ddnMs"`    // 0 = the real 20 s
 	Datapath string `json:"datapath"` // bess (default) | up4: reports are digests of the harness' P4Runtime switch
 }
 
